@@ -31,20 +31,32 @@ class HarnessError(Exception):
 
 class Res:
   """Outcome of one case: failures (bucket, detail), labels, non-triviality."""
-  __slots__ = ("fails", "labels", "nontrivial", "nt_key", "extra_nt")
+  __slots__ = ("fails", "labels", "nontrivial", "nt_key", "extra_nt", "nt_keys", "evals", "stats")
 
   def __init__(self):
     self.fails = []
-    self.labels = []
+    self.labels = Counter()
     self.nontrivial = False
     self.nt_key = None      # overrides the case hash for distinctness when set
     self.extra_nt = 0       # for cases that bundle many distinct sub-cases counted by construction
+    self.nt_keys = []       # for cases that bundle several sub-cases (document x time): one key per non-trivial sub-case
+    self.evals = 1          # number of evaluations this case stands for
+    self.stats = None       # optional Counter merged into the labels (coverage grids)
 
   def fail(self, bucket, detail=""):
-    self.fails.append((bucket, str(detail)[:1500]))
+    if not any(b == bucket for b, _ in self.fails):
+      self.fails.append((bucket, str(detail)[:1500]))
 
   def label(self, *names):
-    self.labels.extend(names)
+    for n in names:
+      self.labels[n] += 1
+
+  def crash(self, exc, prefix=""):
+    """records an exception raised by ttconv as a crash bucket; re-raises harness errors"""
+    bucket, harness = crash_bucket(exc)
+    if harness:
+      raise exc
+    self.fail(prefix + bucket, "%s: %s" % (type(exc).__name__, exc))
 
 
 class Acc:
@@ -61,14 +73,18 @@ class Acc:
     self.notes = []
 
   def add(self, case, res, sample_limit=4, enc_case=None):
-    self.evaluations += 1
-    for l in res.labels:
-      self.labels[l] += 1
+    self.evaluations += res.evals
+    self.labels.update(res.labels)
+    if res.stats:
+      self.labels.update(res.stats)
     j = None
+    if res.nt_keys:
+      self.nt.update(res.nt_keys)
+      res.nontrivial = True
     if res.nontrivial:
       if res.extra_nt:
         self.nt_counted += res.extra_nt
-      else:
+      elif not res.nt_keys:
         self.nt.add(res.nt_key if res.nt_key is not None else codec.chash(case))
       if len(self.samples) < sample_limit:
         self.samples.append(codec.brief(case))
@@ -119,7 +135,7 @@ def run_check(check, case):
   res = Res()
   try:
     check(case, res)
-  except RecursionError as e:
+  except RecursionError:
     res.fail("crash:RecursionError", "recursion")
   except HarnessError:
     raise
@@ -142,7 +158,7 @@ class Part:
   """
 
   def __init__(self, name, check, strategy=None, n=(200, 5000), chunks=None, cases=None, budget=(120, 3600),
-               required_labels=(), shards=None, exhaustive=(False, False), fast_check=None, decode=None):
+               required_labels=(), shards=None, exhaustive=(False, False), fast_check=None, decode=None, shrinker=None):
     self.name = name
     self.check = check
     self.strategy = strategy
@@ -155,6 +171,7 @@ class Part:
     self.exhaustive = exhaustive
     self.fast_check = fast_check  # optional: chunk -> Acc, for tight enumeration loops
     self.decode = decode          # optional: JSON-decoded case -> case (default identity)
+    self.shrinker = shrinker      # optional: case -> iterable of simpler cases (greedy minimiser instead of hypothesis.find)
 
 
 def _hyp_shard(args):
@@ -209,6 +226,26 @@ def _enum_shard(args):
     return ("harness", str(e))
   except Exception as e:  # pylint: disable=broad-except
     return ("harness", "enumeration raised %s\n%s" % (e, traceback.format_exc()))
+
+
+def _greedy(part, case, bucket, budget):
+  """greedy minimisation: keep applying the first simplification that stays in `bucket` until none does or time is up"""
+  t0 = time.time()
+  progress = True
+  while progress and time.time() - t0 < budget:
+    progress = False
+    for cand in part.shrinker(case):
+      if time.time() - t0 > budget:
+        break
+      try:
+        res = run_check(part.check, cand)
+      except HarnessError:
+        continue
+      if any(b == bucket for b, _ in res.fails):
+        case = cand
+        progress = True
+        break
+  return case
 
 
 def _shrink(modname, partname, tier, seed, bucket, n, budget):
@@ -309,7 +346,11 @@ class Ctx:
         self.excluded += count
         continue
       case = codec.loads(cj)
-      if part.strategy is not None:
+      if part.shrinker is not None:
+        case = _greedy(part, case, bucket, 40 if self.ti == 0 else 300)
+        r = run_check(part.check, case)
+        detail = next((d for b, d in r.fails if b == bucket), detail)
+      elif part.strategy is not None:
         small = _shrink(modname, part.name, self.tier, self.seed * 1000, bucket, 400 if self.ti == 0 else 3000,
                         30 if self.ti == 0 else 240)
         if small is not None and len(codec.dumps(small)) <= len(cj):
